@@ -930,7 +930,13 @@ func (o Object) Equals(with Item) bool {
 					result = false
 					return nil
 				}
-			} else if !w.URL.GetLink().Equals(o.URL.GetLink(), false) {
+			} else if IsIRI(w.URL) && IsIRI(o.URL) {
+				if !w.URL.GetLink().Equals(o.URL.GetLink(), false) {
+					result = false
+					return nil
+				}
+			} else if !ItemsEqual(o.URL, w.URL) {
+				// a link or an embedded object: its own id says nothing about where it points
 				result = false
 				return nil
 			}
